@@ -31,6 +31,17 @@ func TestVerif_C02_Exact(t *testing.T) {
 			t.Fatalf("HARNESS: reference signer disagrees with the construction: err=%v cands=%d/%d rej=%v/%v", werr, wc, c.Cands, wrej, c.Rejected)
 		}
 		rd := newStream(c.Stream)
+		// how the bytes arrive is not the signer's business: short reads and runs of empty reads (0, nil) are what an io.Reader may do
+		switch gen.Pick(t, "delivery", "whole", "whole", "whole", "short-reads", "empties") {
+		case "short-reads":
+			rd.chunk = gen.Uniform(t, "chunk", 1, 31)
+		case "empties":
+			rd.empties = []int{1, 4, 99, 100, 128, 1000}[gen.Uniform(t, "nempty", 0, 5)]
+			rd.chunk = []int{0, 1, 4}[gen.Uniform(t, "emptychunk", 0, 2)]
+			if len(c.Stream) > 4096 && rd.chunk != 0 {
+				rd.chunk = 0 // long streams: keep the number of reads reasonable
+			}
+		}
 		var r, s []byte
 		var err error
 		if p := vt.Catch(func() { r, s, err = sm2.SignHashed(rd, c.DEnc, c.E) }); p != nil {
